@@ -118,6 +118,7 @@ type c10Data struct {
 	Max      int      `json:"max"`
 	Prefill  int      `json:"prefill"`
 	LongKeys bool     `json:"long_keys,omitempty"`
+	Collide  bool     `json:"colliding_keys,omitempty"`
 	Ops      []*c10Op `json:"ops"`
 	Label    string   `json:"label,omitempty"`
 	Waiting  string   `json:"waiting,omitempty"`
@@ -639,6 +640,10 @@ func c10Setup(d *c10Data) (interface{}, []int) {
 	longKeys = d.LongKeys
 	obj := t.New(d.Variant)
 	keys := []int{1, 2, 3, 4}
+	if d.Collide {
+		// pairs that share a bucket of the default table (101 slots) next to keys that do not
+		keys = []int{1, 2, 102, 103}
+	}
 	if d.Prefill > 0 {
 		populate(obj, d.Prefill, 1000)
 	}
@@ -658,6 +663,7 @@ func c10LinBody(rc *RunCtx) {
 	d.Type = t.Name
 	d.Variant = simrt.Choose(t.Variants)
 	d.LongKeys = simrt.Chance(1, 2)
+	d.Collide = simrt.Chance(1, 3)
 	rt := reflect.TypeOf(t.New(0))
 	_, hasMax := rt.MethodByName("SetMax")
 	switch simrt.Choose(4) {
@@ -806,7 +812,8 @@ func c10LinAfter(rc *RunCtx, res *simrt.Result) {
 				break
 			}
 		}
-		if got := readout(ref, []int{1, 2, 3, 4}); len(d.nbOut) == len(d.nbM)+1 && got != d.nbOut[len(d.nbM)] {
+		_, nbKeys := c10Setup(d)
+		if got := readout(ref, nbKeys); len(d.nbOut) == len(d.nbM)+1 && got != d.nbOut[len(d.nbM)] {
 			rc.Violate("C10", "instance-leak", "instance-leak:"+d.Type, fmt.Sprintf("a second %s used by a single task while the first was busy ends as %q, sequentially as %q", d.Type, d.nbOut[len(d.nbM)], got))
 		}
 	}
